@@ -547,6 +547,25 @@ func c09Pending(p *core.Prog, r *core.Report) {
 			r.Check(okAll, "C09-R3", fname(f), "admission roll-back decrements pending once", p.Pos(f.Pos()), "every unregistered return after admission passes exactly one decrementPending; registered returns none", how)
 		}
 	}
+	// a decrement written out in place of the helper keeps the helper's second
+	// half: the close state is re-evaluated on every path after it
+	for _, f := range p.SrcFuncs {
+		if pkgOf(f) != core.Root || f.Name() == "decrementPending" {
+			continue
+		}
+		f := f
+		core.EachInstr(f, func(i ssa.Instruction) {
+			if _, isHelper := core.IsCall(i, "Relayer.decrementPending"); isHelper || !isPendingDec(i) {
+				return
+			}
+			res := core.ReachAvoiding(f, i, core.IsReturn, func(j ssa.Instruction) bool {
+				_, is := core.IsCall(j, "Connection.checkExchanges")
+				return is
+			}, nil)
+			r.Check(!res.Found, "C09-R3", fname(f), "in-place decrement re-evaluates the close state", p.Pos(i.Pos()), "checkExchanges() follows on every path",
+				"pending is decremented without re-evaluating the close state: a connection waiting for its last relayed call never finishes closing")
+		})
+	}
 	if f := mustFunc(p, r, "", "Relayer", "decrementPending"); f != nil {
 		ok := len(core.CallsIn(f, "Connection.checkExchanges")) == 1 && onEveryPath(f, "Connection.checkExchanges") && onEveryPath(f, "go.uber.org/atomic.Uint32.Dec")
 		r.Check(ok, "C09-R3", fname(f), "decrement re-evaluates the close state", p.Pos(f.Pos()), "checkExchanges()", "connections waiting for relayed calls are not re-checked")
